@@ -241,6 +241,35 @@ def demoB : Block :=
   (.cons (.assign (.var "x") (.str "\"s\""))
   (.cons (.ret (some (.bin (.var "x") "<" (.un "cardinality" (.var "d"))))) .nil)))
 
+/-- `typed_as_oal` APPLIED: in a population that already holds two values, the mechanism relates the value of
+    `d.Age + 1` across R820 to what the specification says (integer), as a V_BIN, after creating its three rows -/
+example :
+    let env : Env := [[("d", ⟨.inst, some "inst_ref<Dog>", "DOG"⟩)]]
+    let p : Pop := ⟨[("V_LIN", some "integer"), ("V_LST", some "string")]⟩
+    let e : Expr := .bin (.field (.var "d") "Age") "+" (.int "1")
+    (buildExpr demoT env none e p).2.r820 (buildExpr demoT env none e p).1 = some "integer" ∧
+    (buildExpr demoT env none e p).2.kind (buildExpr demoT env none e p).1 = "V_BIN" ∧
+    (buildExpr demoT env none e p).2.vals.length = 6 := by
+  intro env p e
+  have h := typed_as_oal demoT env none rfl e p
+  refine ⟨by rw [h.1]; decide, by rw [h.2.1]; decide, by rw [h.2.2]; decide⟩
+
+/-- `chains_are_source_order` APPLIED to a list of three distinct instances, middle element -/
+example : prevStatement [10, 20, 30] 20 = some 10 ∧ nextInChain [10, 20, 30] 20 = some 30 := by
+  have h := chains_are_source_order [10, 20, 30] (by decide) 1 (by decide)
+  exact ⟨by simpa using h.1, by simpa using h.2.1⟩
+
+/-- `visible_preserved` / `scope_stack_balanced` APPLIED: `x` (an integer transient in the outer scope) is the same
+    variable after an `if` whose block assigns a string to `x` and declares `t`; the stack keeps its outer scopes -/
+example :
+    let env : Env := [[], [("x", ⟨.trn, some "integer", ""⟩)]]
+    let s : Stmt := .if_ (.bool "true") (.cons (.assign (.var "x") (.str "\"s\"")) (.cons (.assign (.var "t") (.int "1")) .nil))
+      .nil .none
+    findVar demoT (walkStmt demoT env s).1 "x" = some ⟨.trn, some "integer", ""⟩ ∧
+    ∃ top, (walkStmt demoT env s).1 = top :: env.tail := by
+  intro env s
+  exact ⟨visible_preserved demoT env s "x" _ rfl, scope_stack_balanced demoT env (by simp [env]) s⟩
+
 /-- `x` keeps the type (integer) of its first assignment although a string is assigned later -/
 example : typeWalk demoT demoB =
     [("V_IRF", some "inst_ref<Dog>"), ("V_AVL", some "integer"), ("V_LIN", some "integer"),
